@@ -11,7 +11,7 @@ optional ignore regexp.  The environment creates / deletes / renames / appends
 at any time; poll rounds and wake rounds are explicit steps.
 
   1. TLC, corrected design: Complete, NeverBad, CountOK, NoDup, AllOwed,
-     NoZombie for all histories of <= 4 (thorough 6) steps; -coverage once.
+     NoZombie for all histories of <= 4 (thorough 7) steps; -coverage once.
   2. TLC with each open deviation on must produce its counterexample.
   3. Direction A: every transition of the bounded state graph that completes a
      history step is printed with the path that reached it (ACTION_CONSTRAINT
@@ -34,7 +34,7 @@ LEVEL = "model_checking"
 META = {
     "text": "TLC exhausts spec/Tailer.tla (AddPattern/doPatternGlob/Ignore/TailPath dedup/log_count/forwarder removal + stream "
             "wake behaviour) over a 5-name directory, 6 pattern sets (overlapping globs, absolute/relative/unclean spellings "
-            "of the same path) x optional ignore regexp x 2 initial directories for all histories of <=4 (thorough 6) steps over "
+            "of the same path) x optional ignore regexp x 2 initial directories for all histories of <=4 (thorough 7) steps over "
             "{create, delete, rename, append, poll round, wake round}; every transition of that graph completing a step at "
             "depth <=3 (thorough 4) plus simulated 30-step histories is replayed on a real directory against the real Tailer "
             "comparing logstreams keys, log_count, parked stream goroutines and delivered lines after every round.",
@@ -295,16 +295,16 @@ def run(ctx):
     codedevs = tuple(d for d in opendevs if d == "DEV_PollWhileStreamStale")
 
     # 1. model
-    rc = vlib.tlc(ctx, "Tailer", _cfg(3, DEVS, invs=["TypeOK", "NeverBad", "CountOK"]), coverage=True, label="Tailer-coverage",
-                  timeout=900)
+    rc = vlib.tlc(ctx, "Tailer", _cfg(3, DEVS, invs=["TypeOK", "NeverBad", "CountOK"], patsets=[["G1abs", "G2rel"], ["E3dot"]]),
+                  coverage=True, label="Tailer-coverage", timeout=900)
     if rc.zero_cov:
         raise vlib.InfraError("Tailer.tla: actions never taken (vacuous model): %s" % rc.zero_cov)
-    model_steps = 6 if ctx.thorough else 4
+    model_steps = 7 if ctx.thorough else 4
     r = vlib.tlc(ctx, "Tailer", _cfg(model_steps), label="Tailer-steps%d" % model_steps, timeout=3000,
                  heap="12g" if ctx.thorough else None)
     # 2. deviations
     for d in opendevs:
-        vlib.expect_dev_counterexample(ctx, "Tailer", _cfg(5, (d,), invs=DEV_INV[d], patsets=[["G1abs"], ["G1abs", "G2rel"]],
+        vlib.expect_dev_counterexample(ctx, "Tailer", _cfg(4, (d,), invs=DEV_INV[d], patsets=[["G1abs"]],
                                                            initfs=[["a.log", "a.log.gz", "d.log"]]), d, timeout=900)
 
     # 3. witnesses of the findings on the real code, then the replay
